@@ -98,7 +98,7 @@ package combinator
 //@   let st = ctx.ResultCache()[parserIndex][pos]
 //@   let hit = ctx.ResultCache()[parserIndex][pos] != nil && forall k int :: dom(data.MapOf(ctx.ResultCache()[parserIndex][pos].LeftRecCtx), k) ==> data.MapOf(ctx.ResultCache()[parserIndex][pos].LeftRecCtx)[k] <= data.MapOf(lrc)[k]
 //@   let curtail = data.MapOf(lrc)[parserIndex] > ctx.Reader().Remaining(pos) + 1
-//@   ensures  [hit;C03] hit ==> ncalls() == 0 && same(n, st.Node) && same(cp, st.CurtailingParsers) && same(err, st.Error)
+//@   ensures  [hit;C03,C01] hit ==> ncalls() == 0 && same(n, st.Node) && same(cp, st.CurtailingParsers) && same(err, st.Error)
 //@   ensures  [hit-silent;C03] hit ==> same(ctx.Error(), old(ctx.Error())) && ctx.ResultCache()[parserIndex][pos] == old(ctx.ResultCache()[parserIndex][pos])
 //@   ensures  [curtailed;C01,C02] !hit && curtail ==> ncalls() == 0 && n == nil && err == nil && forall x int :: data.Member(data.ElemsOf(cp), x) == (x == parserIndex)
 //@   ensures  [miss;C01,C03] !hit && !curtail ==> ncalls() == 1 && callarg[*parsley.Context](1, 1) == ctx && callarg[parsley.Pos](1, 3) == pos && sameAlts(n, callres[parsley.Node](1, 0)) && same(cp, callres[data.IntSet](1, 1)) && same(err, callres[parsley.Error](1, 2))
